@@ -1,6 +1,7 @@
 //! vh — runtime-monitoring harness for r-nacos (see /verif/DESIGN.md).
 //! Every sub-command links the real library built from /repo's working tree.
 mod c20;
+mod store;
 mod util;
 
 use util::Args;
@@ -15,6 +16,7 @@ fn main() {
     let args = Args::parse(&argv);
     let r = match sub.as_str() {
         "c20" => c20::run(&args),
+        "store-session" => store::run(&args),
         _ => {
             eprintln!("unknown sub-command {}", sub);
             std::process::exit(2);
